@@ -164,7 +164,7 @@ class Environment:
             The sub-simulation lasts until simulation time equals ``until``.
         """
         if not __USIM_STATE__.is_active:
-            usim_run(self.until(until))
+            usim_run(self.until(until), start=min(self._initial_time, 0))
             if isinstance(until, Event):
                 if until.triggered:
                     return until.value
